@@ -18,9 +18,9 @@ const (
 
 func init() {
 	register(&Property{
-		ID:  "C18",
-		Run: runC18,
-		Explain: "Static structural necessary conditions of the memory limiter: (R1) decision freshness – every path of the check performs a store to the refuse flag before returning; the stored value is always a soft-limit evaluation, every measurement on a path to the store is re-evaluated against the soft limit before the store, and no measurement lies between the evaluation used and the store; (R2) forced-GC gating – every GC-and-remeasure call is unreachable from the below-soft-limit side and is dominated by `time.Since(lastGCDone) > interval` with the hard interval on the above-hard side and the soft interval otherwise; the GC routine records lastGCDone; (R3) comparators – soft: Alloc >= limit − spike, hard: Alloc >= limit; (R4) refusal wiring per signal – each processor function returns the (non-permanent) refusal error on the MustRefuse() side with the payload it was given and nil otherwise; the processor helper reaches the next consumer only on the nil-error side with the value the function returned; the extension's check returns the refusal error under MustRefuse(); (R5) shared checker lifecycle – the reference counter is accessed under its lock, the checker goroutine starts only on 0→1 and is joined, everything that stops the checker (ticker stop, close, wait) happens only on 1→0, shutdown at 0 returns the not-started error.",
+		ID:         "C18",
+		Run:        runC18,
+		Explain:    "Static structural necessary conditions of the memory limiter: (R1) decision freshness – every path of the check performs a store to the refuse flag before returning; the stored value is always a soft-limit evaluation, every measurement on a path to the store is re-evaluated against the soft limit before the store, and no measurement lies between the evaluation used and the store; (R2) forced-GC gating – every GC-and-remeasure call is unreachable from the below-soft-limit side and is dominated by `time.Since(lastGCDone) > interval` with the hard interval on the above-hard side and the soft interval otherwise; the GC routine records lastGCDone; (R3) comparators – soft: Alloc >= limit − spike, hard: Alloc >= limit; (R4) refusal wiring per signal – each processor function returns the (non-permanent) refusal error on the MustRefuse() side with the payload it was given and nil otherwise; the processor helper reaches the next consumer only on the nil-error side with the value the function returned; the extension's check returns the refusal error under MustRefuse(); (R5) shared checker lifecycle – the reference counter is accessed under its lock, the checker goroutine starts only on 0→1 and is joined, everything that stops the checker (ticker stop, close, wait) happens only on 1→0, shutdown at 0 returns the not-started error.",
 		NotDecided: "Anything about real memory readings and timing; that runtime.ReadMemStats/GC behave as documented.",
 		Assumes:    []string{"atomic.Bool and sync.Mutex semantics"},
 		Technique:  "static analysis: reaching-measurement/evaluation ordering on SSA, guard extraction with comparator normal forms, must-lockset, goroutine join rule",
